@@ -4183,6 +4183,106 @@ and vhas_fb = function
 | VBound (a, b, _) -> (||) (vhas_fb a) (vhas_fb b)
 | _ -> false
 
+type call = (operator * char list) * char list
+
+(** val render_tr :
+    oracle2 -> (operator -> (char list -> char list -> sres out) option) ->
+    expr -> (sres * call list) out **)
+
+let render_tr o2 fns =
+  let rec render_tr0 = function
+  | E (l, op, r, _, _) ->
+    bind (serialize_tr l) (fun ls ->
+      let (s, tl0) = ls in
+      let (lf, g) = s in
+      (match g with
+       | Some er -> Ret (([], (Some er)), tl0)
+       | None ->
+         bind (serialize_tr r) (fun rs_ ->
+           let (s0, tr) = rs_ in
+           let (rt, g0) = s0 in
+           (match g0 with
+            | Some er -> Ret (([], (Some er)), (app tl0 tr))
+            | None ->
+              let lf0 =
+                wrap_if ((&&) (negb (no_wrap_op op)) (negb (is_simple l))) lf
+              in
+              let rt0 =
+                wrap_if ((&&) (negb (no_wrap_op op)) (negb (is_simple r))) rt
+              in
+              (match fns op with
+               | Some fn ->
+                 bind (fn lf0 rt0) (fun x -> Ret (x,
+                   (app tl0 (app tr (((op, lf0), rt0) :: [])))))
+               | None ->
+                 Ret (([], (Some
+                   ('u'::('n'::('a'::('b'::('l'::('e'::(' '::('t'::('o'::(' '::('r'::('e'::('n'::('d'::('e'::('r'::(' '::('o'::('p'::('e'::('r'::('a'::('t'::('o'::('r'::[]))))))))))))))))))))))))))),
+                   (app tl0 tr)))))))
+  and serialize_tr = function
+  | VNil -> Ret (([], None), [])
+  | VInt z0 -> Ret (((z_to_string z0), None), [])
+  | VFloat f -> Ret (((o2.fmt_v f), None), [])
+  | VStr s ->
+    Ret
+      (((append ('\''::[])
+          (append (replace_char '\'' ('\''::('\''::[])) s) ('\''::[]))),
+      None), [])
+  | VBool b -> Ret (((bool_str b), None), [])
+  | VCol c -> Ret ((ser_column c), [])
+  | VExp e -> render_tr0 e
+  | VList l ->
+    let rec each l0 acc tr =
+      match l0 with
+      | [] -> Ret (((join (','::(' '::[])) (rev acc)), None), tr)
+      | x :: rest0 ->
+        bind (render_tr0 x) (fun s ->
+          let (s0, t) = s in
+          let (s', g) = s0 in
+          (match g with
+           | Some er -> Ret ((s', (Some er)), (app tr t))
+           | None -> each rest0 (s' :: acc) (app tr t)))
+    in each l [] []
+  | VBound (mn, mx, incl) ->
+    bind (serialize_tr mn) (fun a ->
+      let (s, ta) = a in
+      let (smin, g) = s in
+      (match g with
+       | Some er -> Ret (([], (Some er)), ta)
+       | None ->
+         bind (serialize_tr mx) (fun b ->
+           let (s0, tb) = b in
+           let (smax, g0) = s0 in
+           (match g0 with
+            | Some er -> Ret (([], (Some er)), (app ta tb))
+            | None ->
+              Ret
+                (((if incl
+                   then append ('['::[])
+                          (append smin
+                            (append (','::(' '::[])) (append smax (']'::[]))))
+                   else append ('('::[])
+                          (append smin
+                            (append (','::(' '::[])) (append smax (')'::[]))))),
+                None), (app ta tb))))))
+  in render_tr0
+
+(** val postorder : expr -> operator list **)
+
+let rec postorder = function
+| E (l, op, r, _, _) -> app (postorder_v l) (app (postorder_v r) (op :: []))
+
+(** val postorder_v : value -> operator list **)
+
+and postorder_v = function
+| VExp e -> postorder e
+| VList l ->
+  let rec each = function
+  | [] -> []
+  | x :: rest0 -> app (postorder x) (each rest0)
+  in each l
+| VBound (a, b, _) -> app (postorder_v a) (postorder_v b)
+| _ -> []
+
 type bytes = char list
 
 (** val bval : char -> n **)
